@@ -79,6 +79,10 @@ class Ctx:
             return
         self.findings.append(Finding(self.prop, rule, key, where, msg, detail))
 
+    def gap(self, rule: str, msg: str) -> None:
+        """the construct a rule reasons about could not be re-identified: not evidence of a violation"""
+        self.deferred_errors.append(f"rule {rule}: {msg}")
+
     def suppress(self, rule: str, construct: str, reason: str) -> None:
         self.suppressions.append({"rule": rule, "construct": construct, "reason": reason})
 
